@@ -282,7 +282,8 @@ class BodyMixin:
         self._body.seek(0)
         read = self._body.read
         max_content_length = self.config.max_memfile_size
-        content_length = self.content_length
+        # with chunked framing a Content-Length header (if any is left) does not describe the body (rfc7230 3.3.3)
+        content_length = -1 if self.chunked else self.content_length
 
         if content_length > max_content_length:
             raise self._raise(BodySizeError(), RequestError)
